@@ -63,6 +63,7 @@ var c06Variants = []string{
 	"sig-empty", "sig-garbage", "sig-flip", "sig-truncated", "sig-high-s", "sig-der",
 	"alg-none", "alg-HS256", "alg-RS256", "alg-lower", "alg-mismatch", "alg-mismatch-stale",
 	"json-flattened", "json-general1", "json-general2-vv", "json-general2-vj", "json-general2-jv", "json-flattened-unprot",
+	"ser-lf", "ser-cr", "ser-crlf", "ser-sp", "ser-tab", "ser-combo", "ser-lf", "ser-cr", "ser-crlf", "ser-combo",
 	"b64-std-padded", "ws-leading", "ws-trailing", "hdr-trailing-garbage", "hdr-trailing-ws", "hdr-leading-ws", "b64-trailing-bits",
 	"dup-lc-last-wrong", "dup-lc-first-wrong", "crit-missing", "crit-unknown", "ver-frac", "ver-3", "ver-string", "sigt-string",
 	"sigt-frac", "sigt-neg", "cty-noslash", "cty-number", "b64-false",
@@ -544,6 +545,59 @@ func (f *c06Fix) buildCrafted(o c06Offer, idx int, pool []vdTx) c06Sub {
 		pay := c06B64(b.phashHex())
 		sig := c06SignRaw(b.alg, b.key, []byte(seg+"."+pay))
 		s.data = []byte(seg + "." + pay + "." + c06B64(sig))
+	case "ser-lf", "ser-cr", "ser-crlf", "ser-sp", "ser-tab", "ser-combo":
+		// a third party re-serialises a validly signed transaction (the signature stays the signer's): a separator character
+		// at one of 11 positions, alone or (combo) together with another non-canonical form
+		ins := map[string]string{"ser-lf": "\n", "ser-cr": "\r", "ser-crlf": "\r\n", "ser-sp": " ", "ser-tab": "\t"}[v]
+		sig := validSig()
+		parts := []string{c06B64(hj()), c06B64(b.phashHex()), c06B64(sig)}
+		if v == "ser-combo" {
+			ins = []string{"\n", "\r", "\r\n", "\n\r\n", " \n", "\r\t"}[int(o.Sel/11)%6]
+			switch other := []string{"padding", "trailing-bits", "header-octets", "header-ws", "two-places"}[k%5]; other {
+			case "padding":
+				parts[1] += "=="
+			case "trailing-bits":
+				const abc = "ABCDEFGHIJKLMNOPQRSTUVWXYZabcdefghijklmnopqrstuvwxyz0123456789-_"
+				if i := strings.IndexByte(abc, parts[1][len(parts[1])-1]); i >= 0 {
+					parts[1] = parts[1][:len(parts[1])-1] + string(abc[i|3])
+				}
+			case "header-octets":
+				parts[0] = c06B64(append(hj(), c06Garbage(fmt.Sprint("trail", idx), 1+k%4)...))
+			case "header-ws":
+				parts[0] = c06B64(append(hj(), '\n'))
+			case "two-places":
+				parts[2] = parts[2][:len(parts[2])/3] + ins + parts[2][len(parts[2])/3:]
+			}
+			s.label += ":" + []string{"padding", "trailing-bits", "header-octets", "header-ws", "two-places"}[k%5]
+		}
+		pos := int(o.Sel % 11)
+		at := func(p string, frac int) string { i := len(p) * frac / 4; return p[:i] + ins + p[i:] }
+		switch pos {
+		case 0:
+			parts[0] = at(parts[0], 1)
+		case 1:
+			parts[1] = at(parts[1], 2)
+		case 2:
+			parts[2] = at(parts[2], 3)
+		case 3:
+			parts[0] += ins // between segment and dot
+		case 4:
+			parts[1] = ins + parts[1] // between dot and segment
+		case 5:
+			parts[1] += ins
+		case 6:
+			parts[2] = ins + parts[2]
+		case 7:
+			parts[2] += ins // at the end
+		case 8:
+			parts[0] = ins + parts[0] // at the start
+		case 9:
+			parts[2] = parts[2][:len(parts[2])-1] + ins + parts[2][len(parts[2])-1:] // before the last character
+		case 10:
+			parts[0] = parts[0][:1] + ins + parts[0][1:] // after the first character
+		}
+		s.label += "@" + []string{"in-header", "in-payload", "in-signature", "header|.", ".|payload", "payload|.", ".|signature", "end", "start", "before-last", "after-first"}[pos]
+		s.data = []byte(strings.Join(parts, "."))
 	case "hdr-trailing-garbage", "hdr-trailing-ws", "hdr-leading-ws":
 		// a third party re-encodes a validly signed transaction: the signature stays the signer's, over the original header
 		sig := validSig()
